@@ -122,3 +122,24 @@ LEVEL_TEXT.update({
     'C15': 'Arithmetic theorems over N (no enumeration) for scaled durations of any width/scale, RaceLaps for all counts, and the Small conversions for all 2^32 values; the real conversions are run exhaustively over all 256 race-length bytes and all 65536 values of both 16-bit time resolutions, and boundary-biased over 32-bit fields.',
 })
 for k in ['C14','C15']: NOT_APPLICABLE.pop(k, None)
+
+TEXT_MODELLED = ['escape / unescape / strip / to_lossy_bytes / to_lossy_string are hand-modelled (Text/Escape.v, Text/Codepage.v) and tied by differential correspondence (real functions vs extracted model, the model run over encoding_rs\' own tables dumped by the harness)',
+                 'the escape table, colour digits, marker character, codepage letters, search order, default codepage, propagated letter, letter -> encoding_rs constant and whether the decoder sniffs BOMs are REGENERATED from the source (Gen/TextTab.v)']
+PROPS.update({
+    'C10': dict(gens=['text'], coq_targets=['Props/C10.vo'], coqchk_modules=['Props.C10'], group='text', harness='c10', axioms_allowed=[],
+        pre=['python3 tools/ms_tables.py work/ms_tables.txt'],
+        proved=['round trip for all strings the encoder handles safely (no caret, every character in some codepage, no 0x5E-trail character directly before a marker letter): induction over the string with the encoder state, any number and order of codepage switches',
+                'safe holds outside the known class; pure ASCII passes through byte for byte both ways; an unrepresentable character becomes ? and its neighbours are encoded exactly as without it; the fast path is unobservable',
+                'the regenerated letter -> codepage table is LFS\'s assignment (1252 1253 1251 1250 1254 1257 932 936 949 950, ^8 = 1252 kept in text); no BOM sniffing'],
+        modelled=TEXT_MODELLED + ['encoding_rs code tables are an ORACLE (Section hypotheses enc_shape, dec_nil, dec_ascii_cons, dec_enc_app), validated on every Unicode scalar below U+30000 x 10 codepages each run; the implementation\'s per-letter tables are compared with Microsoft\'s cp125x/932/936/949/950 tables (Python codecs) on all 62 984 defined entries, with a fixed tolerance list (cp932: 4 private-use single bytes; cp950: 250 pairs in rows C6A1-C8FE where WHATWG Big5 includes HKSCS)'],
+        assumptions=['totality of the Rust functions is tested (every byte after every marker, random bytes), the Gallina model is total by construction']),
+    'C12': dict(gens=['text'], coq_targets=['Props/C12.vo'], coqchk_modules=['Props.C12'], group='text', harness='c12', axioms_allowed=[],
+        proved=['unescape (escape s) = s for every string; escaped output contains no reserved character; strip = exactly the colour tokens removed (token-level specification), idempotent, escaped carets untouched; fast paths unobservable',
+                'composition escape -> to_lossy_bytes -> to_lossy_string -> unescape: proved for ASCII text without carets (c12_wire_composition_partial), refuted in general with a machine-checked witness "^L" (c12_caret_marker_refuted)'],
+        modelled=TEXT_MODELLED),
+})
+LEVEL_TEXT.update({
+    'C10': 'Round-trip theorem by induction over the string with the encoder state (all lengths, all switch orders) over an oracle for the code tables constrained by four named hypotheses; table assignment checked on the regenerated letter table. The oracle hypotheses and the tables themselves are validated exhaustively against encoding_rs and Microsoft\'s tables on every run; algorithm tied by correspondence on strings over the union repertoire.',
+    'C12': 'Theorems for all strings (induction with one character of look-ahead) about models whose tables are regenerated from the source; tied to the real functions exhaustively over a class alphabet and on random Unicode strings; the wire composition is proved where it holds and refuted with a witness where it does not.',
+})
+for k in ['C10','C12']: NOT_APPLICABLE.pop(k, None)
